@@ -199,7 +199,7 @@ def history(args):
         os.close(fd)
         os.remove(db)
         try:
-            store = DS.SqliteDataStore(prob, database_name=db, mode='write')
+            store = DS.SqliteDataStore(prob, database_name=db, mode=args.get('mode', 'write'), thread_safe=args.get('thread_safe', True))
             prob.data_store = store
             inds = []
             for i in range(ninds):
@@ -227,6 +227,7 @@ def history(args):
                         last[ind.id] = _snapshot(ind)
             # read back through a read-mode store on another problem object
             view.individuals, view.parameters, view.costs = [], [], []
+            store.destroy()
             DS.SqliteDataStore(view, database_name=db, mode='read')
         finally:
             prob.data_store = DS.DummyDataStore()
@@ -347,6 +348,11 @@ def configs(tier):
     for name, ops_, n, same in H:
         out.append({'name': 'history-' + name, 'task': 'history', 'args': {'ops': ops_, 'ninds': n, 'same_id': same},
                     'weight': 50 ** n, 'split': 48 if n >= 2 else None, 'engine': ve})
+    # other store modes: persistent connection without journal (thread_safe=False), 'rewrite' mode
+    out.append({'name': 'history-s-m-s-not-thread-safe', 'task': 'history',
+                'args': {'ops': ['sync0', 'mut0', 'sync0', 'all'], 'ninds': 1, 'same_id': False, 'thread_safe': False}, 'weight': 50, 'engine': ve})
+    out.append({'name': 'history-s-m-all-rewrite-mode', 'task': 'history',
+                'args': {'ops': ['sync0', 'mut0', 'all'], 'ninds': 1, 'same_id': False, 'mode': 'rewrite'}, 'weight': 50, 'engine': ve})
     runs = [('nsga2', 3, 2)] if Q else [('nsga2', 3, 2), ('epsmoea', 3, 2), ('smpso', 2, 2), ('nsga2', 2, 3)]
     for algo, N, G in runs:
         out.append({'name': 'run-store-%s-N%d-G%d' % (algo, N, G), 'task': 'run_store', 'args': {'algo': algo, 'N': N, 'G': G},
